@@ -36,7 +36,12 @@ Section Upload.
   Record st := { fs : fsys; log : list event; tick : nat }.
   Definition step (x : st) : st * bool := ({| fs := fs x; log := log x; tick := S (tick x) |}, fault (tick x)).
 
-  (* internal.Copy: open, create (file visible, empty), copy, close; on failure the destination is removed *)
+  (* internal.Copy: open, create (file visible, empty), copy, close; on failure the destination is removed.
+     "Create" since the repair of the r14 finding copy-follows-destination-symlink: whatever the destination holds under
+     the name is REMOVED and the file created exclusively (the name then denotes a new file of its own: U20L) - a name
+     that was there disappears before it appears *)
+  Definition replaced (dst : entry) (f : fsys) : list event :=
+    match fs_get dst f with Some _ => [EvRemove dst] | None => [] end.
   Definition copy_file (src dst : entry) (x : st) : st * bool (* ok *) :=
     let (x, f1) := step x in                                   (* os.Open *)
     match fs_get src (fs x) with
@@ -45,7 +50,7 @@ Section Upload.
         if f1 then (x, false) else
         let (x, f2) := step x in                               (* os.Create *)
         if f2 then (x, false) else
-        let x := {| fs := fs_put dst [] (fs x); log := log x ++ [EvCreate dst]; tick := tick x |} in
+        let x := {| fs := fs_put dst [] (fs x); log := log x ++ replaced dst (fs x) ++ [EvCreate dst]; tick := tick x |} in
         let (x, f3) := step x in                               (* io.Copy / Close *)
         if f3 then ({| fs := fs_del dst (fs x); log := log x ++ [EvRemove dst]; tick := tick x |}, false)
         else ({| fs := fs_put dst content (fs x); log := log x ++ [EvDone dst]; tick := tick x |}, true)
@@ -117,12 +122,14 @@ Section Upload.
     destruct (fault (S (tick x))).
     { intros E. inversion E; subst. exists []. cbn. rewrite app_nil_r. repeat split; try discriminate; auto. contradiction. }
     cbn [fs log tick]. destruct (fault (S (S (tick x)))); intros E; inversion E; subst; cbn [fs log].
-    - exists [EvCreate dst; EvRemove dst]. rewrite <- app_assoc. repeat split; try discriminate; auto.
-      + intros ev [<-|[<-|[]]]; reflexivity.
+    - exists (replaced dst (fs x) ++ [EvCreate dst; EvRemove dst]). rewrite <- !app_assoc. repeat split; try discriminate; auto.
+      + intros ev Hin. apply in_app_or in Hin as [Hin|[<-|[<-|[]]]]; try reflexivity.
+        unfold replaced in Hin. destruct (fs_get dst (fs x)); [destruct Hin as [<-|[]]; reflexivity|contradiction].
       + intros _. left. rewrite entry_eqb_refl. apply get_del.
-    - exists [EvCreate dst; EvDone dst]. rewrite <- app_assoc. repeat split; try discriminate; auto.
-      + intros ev [<-|[<-|[]]]; reflexivity.
-      + cbn. auto.
+    - exists (replaced dst (fs x) ++ [EvCreate dst; EvDone dst]). rewrite <- !app_assoc. repeat split; try discriminate; auto.
+      + intros ev Hin. apply in_app_or in Hin as [Hin|[<-|[<-|[]]]]; try reflexivity.
+        unfold replaced in Hin. destruct (fs_get dst (fs x)); [destruct Hin as [<-|[]]; reflexivity|contradiction].
+      + apply in_or_app. right. cbn. auto.
       + apply get_put.
   Qed.
 
